@@ -33,6 +33,8 @@ def raw_config(sc):
         var.update(lower_bounds=1.0, upper_bounds=0.0)
     elif b == "badlen":
         var.update(lower_bounds=[-1.0] * (V + 1), upper_bounds=[2.0] * V)
+    elif b == "nested":        # the right number of values, but as a row matrix / a column matrix
+        var.update(lower_bounds=[[-1.0] * V], upper_bounds=[[2.0] for _ in range(V)])
     elif b == "crossfix":
         k = min(2, V)
         var.update(lower_bounds=[1.0 if v == k else -1.0 for v in range(1, V + 1)], upper_bounds=[0.0 if v == k else 2.0 for v in range(1, V + 1)])
